@@ -257,6 +257,39 @@ type walker struct {
 	nextEntry []string                 // entry operations for the next function literal (sync.OnceFunc argument)
 	lastLit   *fnInfo                  // the literal walked last
 	litVar    map[types.Object]*fnInfo // local variable -> the (once-wrapped) literal it holds
+	// locals that hold a slice taken from somewhere shared (`old := x.f[k]`, `for _, old := range param`)
+	sharedLocal map[types.Object]bool
+}
+
+func (w *walker) markShared(id *ast.Ident, from ast.Expr, elem bool) {
+	if id == nil || id.Name == "_" {
+		return
+	}
+	obj := w.info.Defs[id]
+	if obj == nil {
+		obj = w.info.Uses[id]
+	}
+	if obj == nil {
+		return
+	}
+	if _, isSlice := obj.Type().Underlying().(*types.Slice); !isSlice {
+		return
+	}
+	if w.sharedLocal == nil {
+		w.sharedLocal = map[types.Object]bool{}
+	}
+	if elem { // range value / element of `from`
+		if w.sharedSlice(from) {
+			w.sharedLocal[obj] = true
+		}
+		return
+	}
+	switch from.(type) {
+	case *ast.SelectorExpr, *ast.IndexExpr, *ast.Ident, *ast.StarExpr, *ast.ParenExpr:
+		w.sharedLocal[obj] = w.sharedSlice(from)
+	default:
+		w.sharedLocal[obj] = false
+	}
 }
 
 func (w *walker) pathCopy() []int { return append([]int{}, w.path...) }
@@ -363,7 +396,7 @@ func (w *walker) sharedSlice(e ast.Expr) bool {
 		if !ok || v.Pkg() == nil {
 			return false
 		}
-		if v.Parent() == v.Pkg().Scope() {
+		if v.Parent() == v.Pkg().Scope() || w.sharedLocal[v] {
 			return true
 		}
 		var body ast.Node
@@ -384,7 +417,10 @@ func (w *walker) sharedSlice(e ast.Expr) bool {
 			}
 		}
 		if body != nil && (v.Pos() < body.Pos() || v.Pos() > body.End()) {
-			return true // captured from an enclosing function
+			// captured from an enclosing function: shared when this literal runs on another goroutine (`go func`) or is
+			// handed out to be called later (once-wrapped / published through an atomic); a literal that is simply called
+			// back synchronously works on its caller's locals
+			return w.fn.goLit || len(w.fn.entryOps) > 0
 		}
 	}
 	return false
@@ -567,6 +603,22 @@ func (w *walker) call(c *ast.CallExpr) {
 			return
 		}
 	}
+	// builtin copy(x.f, …) / clear(x.f): element-level write into the slice / map held in f
+	if id, ok := c.Fun.(*ast.Ident); ok && (id.Name == "copy" || id.Name == "clear") && len(c.Args) >= 1 {
+		if _, isBuiltin := w.info.Uses[id].(*types.Builtin); isBuiltin {
+			dst := c.Args[0]
+			if se, ok := dst.(*ast.SliceExpr); ok {
+				dst = se.X
+			}
+			if s, ok := dst.(*ast.SelectorExpr); ok {
+				w.record2(s, true, true)
+			} else if w.sharedSlice(dst) {
+				var b strings.Builder
+				_ = printer.Fprint(&b, fset, c)
+				reuses = append(reuses, fmt.Sprintf("%s: %s", w.fn.name, strings.Join(strings.Fields(b.String()), " ")))
+			}
+		}
+	}
 	// callee bookkeeping (for crediting caller-held locks to unexported helpers)
 	var calleeObj types.Object
 	switch f := c.Fun.(type) {
@@ -730,6 +782,11 @@ func (w *walker) stmt(s ast.Stmt) {
 				if obj != nil && len(x.Lhs) == len(x.Rhs) && lits[i] != nil {
 					w.litVar[obj] = lits[i]
 				}
+				if len(x.Lhs) == len(x.Rhs) {
+					w.markShared(id, x.Rhs[i], false)
+				} else if len(x.Rhs) == 1 && i == 0 { // v, ok := m[k]
+					w.markShared(id, x.Rhs[0], false)
+				}
 				if obj != nil && len(x.Lhs) == len(x.Rhs) {
 					w.fresh[obj] = isFreshExpr(w.info, x.Rhs[i])
 				} else if obj != nil {
@@ -829,6 +886,9 @@ func (w *walker) stmt(s ast.Stmt) {
 		})
 	case *ast.RangeStmt:
 		w.expr(x.X)
+		if id, ok := x.Value.(*ast.Ident); ok {
+			w.markShared(id, x.X, true)
+		}
 		if x.Key != nil {
 			if _, ok := x.Key.(*ast.Ident); !ok {
 				w.writeTarget(x.Key)
@@ -1630,7 +1690,8 @@ func main() {
 		}
 	}
 	if *js != "" {
-		b, _ := json.MarshalIndent(map[string]any{"accesses": live, "syncFields": syncFld, "immutableFields": im, "loadErrors": loadErrs}, "", " ")
+		b, _ := json.MarshalIndent(map[string]any{"accesses": live, "syncFields": syncFld, "immutableFields": im, "loadErrors": loadErrs,
+			"postPublicationWrites": ppw, "publishedTypes": pubT}, "", " ")
 		_ = os.WriteFile(*js, b, 0o644)
 	}
 }
